@@ -224,7 +224,20 @@ public:
 			std::lock_guard<Mutex> lockGuard(mutex);
 			EVENTPP_VERIF_POINT("cl.insert.cs");
 
-			doInsert(node, beforeNode);
+			// beforeNode may have been removed already but is still referenced
+			// by a running invocation or by another thread, then append to the end.
+			if(beforeNode->counter != removedCounter) {
+				doInsert(node, beforeNode);
+			}
+			else if(head) {
+				node->previous = tail;
+				tail->next = node;
+				tail = node;
+			}
+			else {
+				head = node;
+				tail = node;
+			}
 
 			return Handle(node);
 		}
@@ -243,7 +256,8 @@ public:
 		EVENTPP_VERIF_POINT("cl.remove.cs");
 
 		auto node = handle.lock();
-		if(node) {
+		// A removed node can still be referenced by a running invocation, it must not be removed twice.
+		if(node && node->counter != removedCounter) {
 			doFreeNode(node);
 			return true;
 		}
@@ -257,7 +271,7 @@ public:
 		EVENTPP_VERIF_POINT("cl.owns.cs");
 
 		auto node = handle.lock();
-		if(node) {
+		if(node && node->counter != removedCounter) {
 			while(node->previous) {
 				node = node->previous;
 			}
